@@ -136,7 +136,27 @@ def collect(prop, tier):
                     auto = any(x["h"] == w and x["op"] == "AutoOn" for x in ops[:arrive]) and not any(x["h"] == w and x["op"] == "AutoOff" for x in ops[:arrive])
                     pend = any(i > arrive and ops[i].get("st") == "setup" for i in wreg) and not any(i < arrive for i in wreg)
                     return 1 + 3 * int(auto and not any(i < arrive for i in wreg)) + 3 * int(pend)
-                return 1 + len({o["op"] for o in s["ops"][d + 1:] if o["op"] in ("Cancel", "Unregister", "Disconnect", "Cut", "Restart", "Shutdown", "AutoOff", "AutoOn")})
+                ops = s["ops"]
+                kinds = len({o["op"] for o in ops[d + 1:] if o["op"] in ("Cancel", "Unregister", "Disconnect", "Cut", "Restart", "Shutdown", "AutoOff", "AutoOn")})
+                # situations around a request that waits for the other user: it ends (cut, disconnect, restart, out of sight)
+                # and the user registers afterwards; the user registers while it is pending; a pairing removed and made again
+                bonus = 0
+                dialler = next(h for h in "AB" if any(o["op"] == "Register" and o["h"] == h for o in ops[:d + 1])
+                               and any(o["op"] == "Appear" and o["h"] == h for o in ops[:d + 1]))
+                other = "AB".replace(dialler, "")
+                if not any(o["op"] == "Register" and o["h"] == other for o in ops[:d + 1]):
+                    later = ops[d + 1:]
+                    regs = [i for i, o in enumerate(later) if o["op"] == "Register" and o["h"] == other]
+                    ends = [i for i, o in enumerate(later) if o["op"] in ("Cut", "Disconnect", "Restart", "Disappear", "Shutdown")]
+                    if regs and ends and min(ends) < max(regs):
+                        bonus += 2
+                    if regs and later[regs[0]].get("st") == "setup":
+                        bonus += 1
+                for h in "AB":
+                    seq = [o["op"] for o in ops if o["h"] == h and o["op"] in ("Register", "Unregister", "Cancel")]
+                    if any(seq[i] in ("Unregister", "Cancel") and seq[i + 1] == "Register" for i in range(len(seq) - 1)):
+                        bonus += 1
+                return 1 + kinds + bonus
             # deterministic in the seed: half of a family's scripts are those with the most kinds of disturbance after a
             # connection was set up, the rest are drawn without looking (one in five sets up no connection at all)
             fs.sort(key=lambda s: (zlib.crc32(json.dumps(s["ops"]).encode()) + seed * 7919) % 1000003)
